@@ -29,7 +29,9 @@ R9  the resolver compares the requested type with the registered keys in one
     type is folded whole or re-assembled from folded pieces (shared with C12:
     r9_same_case_form)
 R10 client_accepts() / client_prefers() answer by negotiation over the whole
-    Accept header: the call is wired (type(s), header), the quality is
+    Accept header: the call is wired (type(s), header) with both arguments in
+    one case form (a lower()/casefold()/... of the header text only, or of the
+    requested types only, is a violation), the quality is
     compared strictly with zero, and an answer given without the call is
     guarded by the EQUALITY of the whole header with the requested type or
     '*/*' - a substring / prefix / piece test deciding it is a violation
@@ -41,7 +43,11 @@ leaves it - "the designated handler or a 415".
 R1's exact-parameter component (criterion 3) is decided semantically: the
 defining expression is evaluated by a small interpreter (_ParamModel) on all
 pairs of parameter-name sets over a three-name universe that are consistent
-with the tests dominating the return.  `len(a) == len(b)` and other look-alikes
+with the tests dominating the return; dict views (`.keys()`, `.items()`) and
+`==` of the two mappings are read too - an expression that reads the VALUES is
+evaluated on every conflict-free assignment of two values to the names, so
+`a.items() <= b.items()` (one-way inclusion) is a violation with a concrete
+pair and `a.items() == b.items()` passes.  `len(a) == len(b)` and other look-alikes
 (EXACT_LOOKALIKES) are violations with a concrete pair of name sets; `a == b`,
 `not (a ^ b)`, two-way inclusion etc. pass; expressions outside the
 interpreter's language stay unknown idioms.
@@ -3934,6 +3940,18 @@ def r9_same_case_form(run):
 #   * a value computed from the negotiation call: the call receives (requested
 #     type(s), whole Accept value) in that order; client_accepts() compares the
 #     quality strictly with zero, client_prefers() hands the choice out as is;
+#   * (added after seeded change s6-c11-1) both arguments reach the call in ONE
+#     case form: match_score() compares types, subtypes and parameter values as
+#     they are spelled, so a case fold (CASE_FOLDS of R9: lower/upper/casefold/
+#     ...) applied to the Accept text only - inline, through a local
+#     (`accept = self.accept.lower()`) - or to the requested type(s) only
+#     (inline, `[t.lower() for t in types]`, `map(str.lower, types)`, a
+#     re-binding of the parameter) is a violation reported on the folding
+#     construct: a type listed verbatim with capitals is refused, and
+#     `format=Flowed` is answered with `format=flowed`.  The same folds on BOTH
+#     sides compare parameter values case-insensitively: not decided (unknown
+#     idiom).  The shortcut equality may look at the header in the case form
+#     the call receives; any other mix is an unknown idiom;
 #   * a positive answer that is not: some test on the way to it (dominating
 #     branch outcome, conditional-expression test, earlier disjunct)
 #     establishes the equality; otherwise a test of the PARTIAL family deciding
@@ -4130,7 +4148,7 @@ def _negotiated_answers(run, p, f: Func, name: str, neg_qual: str):
                 return None if r is None else (r[0] | ef, x)
         return None
 
-    call_folds: List[Set[str]] = []
+    call_sides: List[Tuple[Set[str], Set[str]]] = []      # (folds on the header, folds on the requested type(s)) per call
 
     # --- the negotiation call is wired (requested type(s), whole Accept value)
     cparams = _param_names(callee)
@@ -4160,7 +4178,7 @@ def _negotiated_answers(run, p, f: Func, name: str, neg_qual: str):
         w_e, a_e = (slots[0], slots[1]) if straight else (slots[1], slots[0])
         w_folds, w_site = wanted_folds(w_e)
         a_folds = A.whole_modulo_case(a_e)
-        call_folds.append(a_folds)
+        call_sides.append((a_folds, w_folds))
         what = '%s(): the requested media type(s) and the Accept header value reach %s() in the same case form (case folds on the ' \
                'header: %s; on the requested type(s): %s) - types, subtypes and parameter values are compared as they are spelled' % (
                    name, callee.name, '/'.join(sorted(a_folds)) or 'none', '/'.join(sorted(w_folds)) or 'none')
@@ -4201,21 +4219,37 @@ def _negotiated_answers(run, p, f: Func, name: str, neg_qual: str):
         else:
             yield e, stmt, conds
 
-    def eq_target(e) -> bool:
-        e = _unwrap_cast(e)
-        if isinstance(e, ast.Name) and e.id == wanted and not _assignments(f.node, wanted):
-            return name == 'client_accepts'
-        return name == 'client_accepts' and p.fold(f.module, e, f.cls, f) == ANY_TYPE
+    def eq_target(e):
+        """the case folds on an allowed target of the shortcut equality (the requested type; '*/*' has no letters: 'any');
+        None when `e` is not one"""
+        if name != 'client_accepts':
+            return None
+        if p.fold(f.module, _unwrap_cast(e), f.cls, f) == ANY_TYPE:
+            return 'any'
+        r = wanted_folds(e)
+        return None if r is None else r[0]
+
+    def same_form(e, hs, ts) -> bool:
+        """the shortcut looks at the header / the requested type in the case form the negotiation call receives them in
+        (a fold applied before BOTH is the call's verdict above); any other mix of case forms is not read"""
+        for a, w in call_sides:
+            if any(h != a for h in hs) or any(t != 'any' and t != w for t in ts):
+                raise UnknownIdiom('%s: %s compares another case form than the negotiation call receives' % (f.qual, short(e, 60)))
+        return True
 
     def eq_atom(e) -> Optional[bool]:
         """True: `e` states whole-Accept == an allowed target; False: it states the negation; None: neither"""
         if isinstance(e, ast.Compare) and len(e.ops) == 1:
             l, r, op = e.left, e.comparators[0], e.ops[0]
-            if isinstance(op, (ast.Eq, ast.NotEq)) and ((A.is_whole(l) and eq_target(r)) or (eq_target(l) and A.is_whole(r))):
-                return isinstance(op, ast.Eq)
+            if isinstance(op, (ast.Eq, ast.NotEq)):
+                for h, t in ((l, r), (r, l)):
+                    hf, tf = A.whole_modulo_case(h), eq_target(t)
+                    if hf is not None and tf is not None and same_form(e, [hf], [tf]):
+                        return isinstance(op, ast.Eq)
             r = _unwrap_cast(r)
-            if isinstance(op, (ast.In, ast.NotIn)) and A.is_whole(l) and isinstance(r, (ast.Tuple, ast.List, ast.Set)) and r.elts \
-                    and all(eq_target(x) for x in r.elts):
+            if isinstance(op, (ast.In, ast.NotIn)) and A.whole_modulo_case(l) is not None and isinstance(r, (ast.Tuple, ast.List, ast.Set)) \
+                    and r.elts and all(eq_target(x) is not None for x in r.elts) \
+                    and same_form(e, [A.whole_modulo_case(l)], [eq_target(x) for x in r.elts]):
                 return isinstance(op, ast.In)
         return None
 
